@@ -79,31 +79,88 @@ theorem loop_found (upper : Char → List Char) (L : List LfnEntry) (name : List
   | none => rfl
   | some d => by_cases hd : Lfn.isDir e.sfn = d <;> simp [hd]
 
-/-- nothing matches: the loop is the generator's retry loop over the population of raw short names -/
-theorem loop_notfound (upper : Char → List Char) (L : List LfnEntry) (name : List Char) (isDir : Option Bool)
-    (h : (L.find? fun e => matchesName upper e name) = none) :
-    ∀ (fuel i : Nat) (g : Names.Gen),
-      loop upper L name isDir fuel g =
-        match Names.generateLoop (L.map fun e => sfnName e.sfn) fuel i g with
-        | none => .error .hang
-        | some (a, _) => .ok (.alias a) := by
+/-- one round when nothing matches the name: the scan feeds the whole population, then the three outcomes -/
+theorem loop_succ_notfound (upper : Char → List Char) (L : List LfnEntry) (name : List Char) (isDir : Option Bool)
+    (h : (L.find? fun e => matchesName upper e name) = none) (fuel : Nat) (g : Names.Gen) :
+    loop upper L name isDir (fuel + 1) g =
+      match Names.generate (Names.addAll g (L.map fun e => sfnName e.sfn)) with
+      | .ok a =>
+        if displayAscii a then
+          match lookupNoGen upper L (Names.aliasDisplay a) with
+          | none => .ok (.alias a)
+          | some _ => loop upper L name isDir fuel
+              (Names.addExisting (Names.addAll g (L.map fun e => sfnName e.sfn)) a)
+        else .ok (.alias a)
+      | .error _ => loop upper L name isDir fuel
+          (Names.nextIteration (Names.addAll g (L.map fun e => sfnName e.sfn))) := by
+  have h1 := scan_fst upper name isDir L g
+  have h2 := scan_snd upper name isDir L g h
+  rw [h] at h1
+  conv => lhs; unfold loop
+  generalize scan upper name isDir L g = r at h1 h2
+  obtain ⟨r1, r2⟩ := r
+  simp only [kindResult] at h1 h2
+  subst h1 h2
+  rfl
+
+/-- nothing matches the name: whatever alias the loop returns was produced by `generate` in a reachable state that
+    had just been fed the whole population, and its display form (when it is ASCII, i.e. always) is answered by no
+    listed entry -/
+theorem loop_alias_inv (upper : Char → List Char) (L : List LfnEntry) (name : List Char) (isDir : Option Bool)
+    (h : (L.find? fun e => matchesName upper e name) = none) (g0 : Names.Gen) (a : List Nat) :
+    ∀ (fuel : Nat) (g : Names.Gen), Names.Reach g0 g → loop upper L name isDir fuel g = .ok (.alias a) →
+      ∃ g', Names.Reach g0 g' ∧ Names.generate (Names.addAll g' (L.map fun e => sfnName e.sfn)) = .ok a ∧
+        (displayAscii a = true → lookupNoGen upper L (Names.aliasDisplay a) = none) := by
   intro fuel
   induction fuel with
-  | zero => intro i g; rfl
+  | zero => intro g _ hl; simp [loop] at hl
   | succ fuel ih =>
-    intro i g
-    have h1 := scan_fst upper name isDir L g
-    have h2 := scan_snd upper name isDir L g h
-    rw [h] at h1
-    unfold loop Names.generateLoop
-    generalize scan upper name isDir L g = r at h1 h2
-    obtain ⟨r1, r2⟩ := r
-    simp only [kindResult] at h1 h2
-    subst h1 h2
-    simp only
+    intro g r hl
+    rw [loop_succ_notfound upper L name isDir h] at hl
     cases hg : Names.generate (Names.addAll g (L.map fun e => sfnName e.sfn)) with
-    | ok a => rfl
-    | error x => exact ih (i + 1) _
+    | ok a' =>
+      rw [hg] at hl
+      simp only at hl
+      by_cases hd : displayAscii a' = true
+      · rw [if_pos hd] at hl
+        cases hk : lookupNoGen upper L (Names.aliasDisplay a') with
+        | none =>
+          rw [hk] at hl
+          simp only [Except.ok.injEq, EntryOrAlias.alias.injEq] at hl
+          subst hl
+          exact ⟨g, r, hg, fun _ => hk⟩
+        | some e =>
+          rw [hk] at hl
+          exact ih _ (Names.Reach.add a' (r.addAll _)) hl
+      · rw [if_neg hd] at hl
+        simp only [Except.ok.injEq, EntryOrAlias.alias.injEq] at hl
+        subst hl
+        exact ⟨g, r, hg, fun h' => absurd h' hd⟩
+    | error x =>
+      rw [hg] at hl
+      exact ih _ (Names.Reach.next (r.addAll _)) hl
+
+/-- nothing matches the name: the loop ends with an alias or runs out of fuel, nothing else -/
+theorem loop_none_cases (upper : Char → List Char) (L : List LfnEntry) (name : List Char) (isDir : Option Bool)
+    (h : (L.find? fun e => matchesName upper e name) = none) :
+    ∀ (fuel : Nat) (g : Names.Gen),
+      (∃ a, loop upper L name isDir fuel g = .ok (.alias a)) ∨ loop upper L name isDir fuel g = .error .hang := by
+  intro fuel
+  induction fuel with
+  | zero => intro g; right; rfl
+  | succ fuel ih =>
+    intro g
+    rw [loop_succ_notfound upper L name isDir h]
+    cases hg : Names.generate (Names.addAll g (L.map fun e => sfnName e.sfn)) with
+    | ok a' =>
+      simp only
+      by_cases hd : displayAscii a' = true
+      · rw [if_pos hd]
+        cases hk : lookupNoGen upper L (Names.aliasDisplay a') with
+        | none => exact Or.inl ⟨a', rfl⟩
+        | some e => exact ih _
+      · rw [if_neg hd]; exact Or.inl ⟨a', rfl⟩
+    | error x => exact ih _
 
 end DirAlias
 end FatVerif
@@ -210,24 +267,22 @@ theorem check_found (upper : Char → List Char) (slots : List (List Nat)) (name
   exact loop_found upper _ _ isDir fuel g e h
 
 theorem check_notfound (upper : Char → List Char) (slots : List (List Nat)) (name : String) (isDir : Option Bool)
-    (fuel : Nat) (h : findEntry upper slots name.toList = none) :
+    (fuel : Nat) :
     ∃ g, Names.new name = .ok g ∧
-      checkForExistenceL upper slots name isDir fuel =
-        match Names.generateLoop (population slots) fuel 0 g with
-        | none => .error .hang
-        | some (a, _) => .ok (.alias a) := by
+      checkForExistenceL upper slots name isDir fuel = loop upper (listing slots) name.toList isDir fuel g := by
   obtain ⟨g, hg⟩ := Names.newL_total name.toList
   refine ⟨g, hg, ?_⟩
   unfold checkForExistenceL Names.new
   rw [hg]
-  exact loop_notfound upper _ _ isDir h fuel 0 g
 
-/-- if the result is an alias, nothing matched and the alias is what the generator's retry loop returns on the
-    population of ALL listed raw short names -/
+/-- if the result is an alias: nothing matched the name; the alias is what `generate` returns in a reachable state
+    fed with ALL listed raw short names; and no listed entry answers to its display form -/
 theorem check_alias (upper : Char → List Char) (slots : List (List Nat)) (name : String) (isDir : Option Bool)
     (fuel : Nat) (a : List Nat) (h : checkForExistenceL upper slots name isDir fuel = .ok (.alias a)) :
     findEntry upper slots name.toList = none ∧
-    ∃ g k, Names.new name = .ok g ∧ Names.generateLoop (population slots) fuel 0 g = some (a, k) := by
+    ∃ g g', Names.new name = .ok g ∧ Names.Reach g g' ∧
+      Names.generate (Names.addAll g' (population slots)) = .ok a ∧
+      (displayAscii a = true → findEntry upper slots (Names.aliasDisplay a) = none) := by
   cases hf : findEntry upper slots name.toList with
   | some e =>
     exfalso
@@ -241,16 +296,10 @@ theorem check_alias (upper : Char → List Char) (slots : List (List Nat)) (name
       rw [check_found upper slots name isDir fuel e hf] at h
       cases hk : kindResult isDir (some e) <;> rw [hk] at h <;> simp at h
   | none =>
-    obtain ⟨g, hg, hc⟩ := check_notfound upper slots name isDir fuel hf
+    obtain ⟨g, hg, hc⟩ := check_notfound upper slots name isDir fuel
     rw [hc] at h
-    refine ⟨rfl, g, ?_⟩
-    cases hl : Names.generateLoop (population slots) fuel 0 g with
-    | none => rw [hl] at h; simp at h
-    | some r =>
-      obtain ⟨a', k⟩ := r
-      rw [hl] at h
-      simp only [Except.ok.injEq, EntryOrAlias.alias.injEq] at h
-      exact ⟨k, hg, by rw [h]⟩
+    obtain ⟨g', r, h1, h2⟩ := loop_alias_inv upper _ _ isDir hf g a fuel g Names.Reach.refl h
+    exact ⟨rfl, g, g', hg, r, h1, h2⟩
 
 end DirAlias
 end FatVerif
